@@ -8,6 +8,10 @@ CLAIMED = {
    text='TLC explores every interleaving of the file-system primitives of 2-3 scanner processes (load/parse/store/purge), crash points, source edits, rename vs cross-device copy and fine vs coarse clocks on tla/Cache.tla and checks NoStale (modulo the recorded root causes), NoTorn, NoCrossVersion, PurgeEffective; the same actions are bound to the real CacheStore/Transformer._parse_include by executing TLC counterexamples, TLC-simulated behaviours and random schedules under a deterministic scheduler and validating every recorded trace with TLC (CacheTrace.tla: implementation layer + property layer in every state; CacheProp.tla: API level).',
    note='trusted: step-wise re-implementation of shutil.move in the harness, fake GIRParser (cache payload is opaque), one entry, atomic stamp-file replacement; bounds: <=3 processes, <=2 edits exhaustively, more by simulation',
    technique='TLA+ model checking (TLC) + trace validation of the real code under a controlled scheduler'),
+ 'C13': dict(level='model_checking', design='DESIGN.md §4 C13',
+   text='TLC checks on tla/EnumConst.tla that the transcribed prefix fold of _enum_common_prefix / the unsigned wrap of _create_const imply the stated naming and value rules for every enumeration of <=3 members x <=3 words and 18 integer types x 37 boundary values (limb arithmetic); TLC exports those cases, the harness renders them (plus seeded random enumerations up to 6 members and 64-bit constants, string/boolean constants, aliases) into raw symbols, the real Transformer/MainTransformer/GIRWriter scan them and TLC (EnumConstTrace.tla) judges the projected GIR clause by clause.',
+   note='trusted: symgen conventions of harness/scan.py (the yacc C parser cannot be built here), 7-word vocabulary for member names, decimal<->limb conversion in the harness',
+   technique='TLA+ model checking (TLC) of the transcribed rules + TLC-judged replay of the enumerated cases through the real scanner'),
 }
 checks = []
 for pid, c in sorted(CLAIMED.items()):
